@@ -1,4 +1,5 @@
 import RustCcModel.Proofs.CtlSimp
+import RustCcModel.Proofs.WeakInv
 /-! # C09 — weak/strong counts are exact; the weak side record lives as long as needed -/
 namespace RustCc.C09
 open World
@@ -48,5 +49,36 @@ theorem dropMetadata_spec (w : World) (x : Id) (hm : (w.heap x).hasMeta = true) 
 /-- Counting queries on a `Weak` read only the side record. -/
 theorem weakCount_reads_record (w w' : World) (r : WRef) (h : w'.metas = w.metas) : w'.weakCount r = w.weakCount r := by
   unfold weakCount; cases r <;> simp [h]
+
+
+/-! ## Every reachable world (`Proofs/WeakInv*.lean`) -/
+
+/-- Number of `Weak` pointers to `x` that exist: entries of the `W` table, stashed weak pointers, weak fields of every
+allocated object, `Cleanable`s (each holds a `Weak` to its cleaner's map), the `Weak` handed to a running `new_cyclic`
+closure. -/
+abbrev weakPointersTo (w : World) (x : Id) : Nat := wrefs w x
+
+/-- **`weak_count` is never too low**, in every reachable world (a caught panic may leak: `≤`, not `=`). -/
+theorem weak_count_never_too_low (c : Cfg) (nH nW nK : Nat) (w : World) (h : Reachable c nH nW nK w) (x : Id) :
+    weakPointersTo w x ≤ (w.metas x).weak :=
+  (reachable_weakOk c nH nW nK w h).le x
+
+/-- **Counting queries on a `Weak` stay valid for as long as any `Weak` exists**: its side record has not been released —
+also after the value and its allocation are gone. -/
+theorem weak_has_side_record (c : Cfg) (nH nW nK : Nat) (w : World) (h : Reachable c nH nW nK w) (x : Id)
+    (hx : 0 < weakPointersTo w x) : (w.metas x).live = true :=
+  (reachable_weakOk c nH nW nK w h).live x hx
+
+/-- **The side record is released as soon as both the allocation's hold on it and the last `Weak` are gone** (and, with
+`free_only…`-style event accounting in `weakDrop_spec` / `dropMetadata_spec`, exactly then): a record that is still
+allocated is accessible from its box or has a positive weak count. -/
+theorem side_record_needed (c : Cfg) (nH nW nK : Nat) (w : World) (h : Reachable c nH nW nK w) (x : Id)
+    (hl : (w.metas x).live = true) : (w.metas x).accessible = true ∨ 0 < (w.metas x).weak :=
+  (reachable_weakOk c nH nW nK w h).rel x hl
+
+/-- A record accessible from a box exists. -/
+theorem accessible_record_live (c : Cfg) (nH nW nK : Nat) (w : World) (h : Reachable c nH nW nK w) (x : Id)
+    (ha : (w.metas x).accessible = true) : (w.metas x).live = true :=
+  ((reachable_weakOk c nH nW nK w h).acc x ha).1
 
 end RustCc.C09
